@@ -247,10 +247,13 @@ func waitQuiesce(c *runner) quiet {
 				}
 			}
 		}
-		if i < 50 {
+		switch {
+		case i < 20:
 			runtime.Gosched()
-		} else {
-			time.Sleep(50 * time.Microsecond)
+		case i < 200:
+			time.Sleep(100 * time.Microsecond)
+		default:
+			time.Sleep(time.Millisecond)
 		}
 	}
 }
@@ -277,7 +280,7 @@ func (c *runner) add(d time.Duration) {
 	go func() { c.mock.Add(d); close(done) }()
 	select {
 	case <-done:
-	case <-time.After(20 * time.Second):
+	case <-time.After(10 * time.Second):
 		c.wedged = true
 	}
 }
@@ -592,7 +595,7 @@ func gen(r *h.Rand, tier string, emit func([]string)) {
 	// 2. scripted histories on the mock clock
 	emit([]string{"new 2", "sched 1 e 10 0 0", "adv 9999", "adv 1", "adv 10000", "rel 1", "adv 30000", "sched 1 e 10 0 40", "adv 10000"})
 	emit([]string{"new 2", "sched 1 e 10 0 0", "rel 1", "sched 2 e 60 0 0", "adv 10000", "adv 0", "adv 49999", "adv 1"}) // F8 shape
-	emit([]string{"new 2", "sched 1 e 10 0 0", "sched 1 e 60 0 0", "adv 10000", "adv 50000"})                           // F8, reschedule-later shape
+	emit([]string{"new 2", "sched 1 e 10 0 0", "sched 1 e 60 0 0", "adv 10000", "adv 50000"})                            // F8, reschedule-later shape
 	emit([]string{"new 1", "sched 1 e 5 0 0", "sched 2 e 5 0 0", "sched 3 c 5 2500 0", "adv 5000", "adv 2500", "adv 2500", "adv 60000"})
 	emit([]string{"new 2", "sched 1 e 1 0 0", "block 1", "adv 1000", "adv 3000", "unblock 1", "adv 0", "rel 1", "adv 5000"})
 	emit([]string{"new 3", "sched 7 c 10 -3000 100", "adv 100000", "adv 7000", "adv 3000", "adv 10000"})
@@ -600,7 +603,7 @@ func gen(r *h.Rand, tier string, emit func([]string)) {
 
 	n := 260
 	if tier == "thorough" {
-		n = 3000
+		n = 1200
 	}
 	periods := []uint64{1, 2, 5, 10, 15, 30, 60}
 	cperiods := []uint64{1, 2, 3, 4, 5, 6, 7, 10, 12, 15, 20} // not 30: influxdata/cron makes "*/30" match second 59 too
@@ -617,7 +620,7 @@ func gen(r *h.Rand, tier string, emit func([]string)) {
 		blocked := map[int]bool{}
 		schedWhileBlocked := 0
 		ln := 6 + r.Intn(26)
-		budget := 60 // rough bound on runs per op
+		budget := 30 // rough bound on seconds per clock step
 		for j := 0; j < ln; j++ {
 			x := r.Intn(100)
 			switch {
@@ -696,5 +699,8 @@ func gen(r *h.Rand, tier string, emit func([]string)) {
 
 func main() {
 	_ = strings.TrimSpace
-	h.Main(h.Harness{Gen: gen, NewCase: newCase, OpTimeout: 20 * time.Second})
+	// the scheduler loop busy-waits while a worker executes; a few Ps are enough and keep 16 parallel
+	// harness processes from oversubscribing the machine
+	runtime.GOMAXPROCS(4)
+	h.Main(h.Harness{Gen: gen, NewCase: newCase, OpTimeout: 150 * time.Second})
 }
